@@ -1043,7 +1043,7 @@ impl BuiltInFunction {
                         list[idx]
                     };
                     let key_result = func_def.call(
-                        Value::Null,
+                        *func,
                         vec![item],
                         Rc::clone(&heap),
                         Rc::clone(&bindings),
@@ -1094,7 +1094,7 @@ impl BuiltInFunction {
                         list[idx]
                     };
                     let key_result = func_def.call(
-                        Value::Null,
+                        *func,
                         vec![item],
                         Rc::clone(&heap),
                         Rc::clone(&bindings),
@@ -1311,7 +1311,7 @@ impl BuiltInFunction {
                     };
 
                     let result = func_def.call(
-                        Value::Null,
+                        *func,
                         args,
                         Rc::clone(&heap),
                         Rc::clone(&bindings),
@@ -1352,7 +1352,7 @@ impl BuiltInFunction {
                     };
 
                     let result = func_def.call(
-                        Value::Null,
+                        *func,
                         args,
                         Rc::clone(&heap),
                         Rc::clone(&bindings),
@@ -1396,7 +1396,7 @@ impl BuiltInFunction {
                     };
 
                     accumulator = func_def.call(
-                        Value::Null,
+                        *func,
                         args,
                         Rc::clone(&heap),
                         Rc::clone(&bindings),
@@ -1435,7 +1435,7 @@ impl BuiltInFunction {
                     };
 
                     let result = func_def.call(
-                        Value::Null,
+                        *func,
                         args,
                         Rc::clone(&heap),
                         Rc::clone(&bindings),
@@ -1477,7 +1477,7 @@ impl BuiltInFunction {
                     };
 
                     let result = func_def.call(
-                        Value::Null,
+                        *func,
                         args,
                         Rc::clone(&heap),
                         Rc::clone(&bindings),
@@ -1506,7 +1506,7 @@ impl BuiltInFunction {
                     match func_def {
                         Some(fd) => {
                             let result_a = fd.call(
-                                Value::Null,
+                                *func,
                                 vec![*a],
                                 Rc::clone(&heap),
                                 Rc::clone(&bindings),
@@ -1514,7 +1514,7 @@ impl BuiltInFunction {
                                 source,
                             );
                             let result_b = fd.call(
-                                Value::Null,
+                                *func,
                                 vec![*b],
                                 Rc::clone(&heap),
                                 Rc::clone(&bindings),
